@@ -1,3 +1,6 @@
 SPECIFICATION Spec
+CONSTANTS
+  SvcU = {"a.S", "a.S2", "S", "a.b.S", "a.s"}
+  MethU = {"M", "M2", "m"}
 INVARIANTS TableOK Export
 CHECK_DEADLOCK FALSE
